@@ -46,10 +46,20 @@ func mediaType(m string) string {
 
 // buildClientRequest runs the real client side.
 func buildClientRequest(c *Client, host, pathPattern string) (*http.Request, error) {
+	return buildClientRequestOn(newRuntime(c, host), c, pathPattern)
+}
+
+// newRuntime: the transport an application creates once: host, scheme, default credential.
+func newRuntime(c *Client, host string) *client.Runtime {
 	rt := client.New(host, "/", []string{"http"})
 	if c.Default != nil {
 		rt.DefaultAuthentication = writerFor(*c.Default)
 	}
+	return rt
+}
+
+// buildClientRequestOn builds one operation's request on an existing Runtime.
+func buildClientRequestOn(rt *client.Runtime, c *Client, pathPattern string) (*http.Request, error) {
 	params := runtime.ClientRequestWriterFunc(func(req runtime.ClientRequest, _ strfmt.Registry) error {
 		if c.Preset != nil {
 			name := c.PresetName
@@ -85,6 +95,28 @@ func buildClientRequest(c *Client, host, pathPattern string) (*http.Request, err
 		}
 		if c.FormOther {
 			if err := req.SetFormParam("other", "x"); err != nil {
+				return err
+			}
+		}
+		var cookies []string
+		for _, e := range c.Extra {
+			var err error
+			switch e.In {
+			case "header":
+				err = req.SetHeaderParam(string(e.Name), string(e.Value))
+			case "query":
+				err = req.SetQueryParam(string(e.Name), string(e.Value))
+			case "form":
+				err = req.SetFormParam(string(e.Name), string(e.Value))
+			case "cookie":
+				cookies = append(cookies, string(e.Name)+"="+string(e.Value))
+			}
+			if err != nil {
+				return err
+			}
+		}
+		if len(cookies) > 0 {
+			if err := req.SetHeaderParam("Cookie", strings.Join(cookies, "; ")); err != nil {
 				return err
 			}
 		}
@@ -270,8 +302,12 @@ type observation struct {
 }
 
 func authenticate(s *Server, req *http.Request, rec *recorder) observation {
+	return authenticateWith(buildAuthenticator(s, rec), s, req, rec)
+}
+
+// authenticateWith consults an existing authenticator value (rec is the recorder its callback writes to).
+func authenticateWith(a runtime.Authenticator, s *Server, req *http.Request, rec *recorder) observation {
 	req = req.WithContext(context.WithValue(req.Context(), inKey, "in"))
-	a := buildAuthenticator(s, rec)
 	var o observation
 	if s.Param == "request" && s.Kind != "bearer" {
 		o.applies, o.principal, o.err = a.Authenticate(req)
